@@ -36,13 +36,13 @@ var lcScenarios = []lcScenario{
 }
 
 type lcObserver struct {
-	w          *world.World
-	creates    map[string]int // successful provider creates per NodeClaim name
-	iceAt      []int          // log seq of capacity errors
-	prev       map[string]bool
-	viol       []c01Violation
-	restarted  bool
-	regressed  []string
+	w           *world.World
+	creates     map[string]int // successful provider creates per NodeClaim name
+	iceAt       []int          // log seq of capacity errors
+	prev        map[string]bool
+	viol        []c01Violation
+	restarted   bool
+	regressed   []string
 	transitions []string
 }
 
@@ -241,7 +241,9 @@ func c14Run(sc lcScenario, run *explore.Run, rounds int) (*lcObserver, []string,
 		launched := cur.Status.ProviderID != "" && w.CP.Instance(cur.Status.ProviderID) != nil
 		if launched && node == nil {
 			e := evt{"node-appears", func() { w.KubeletRegister(cur, world.RegisterOpts{NotReadyTaint: true, ZeroExt: true}) }}
-			menu = append(menu, e, evt{"node-appears-without-unregistered-taint", func() { w.KubeletRegister(cur, world.RegisterOpts{NoUnregisteredTaint: true, NotReadyTaint: true, ZeroExt: true}) }})
+			menu = append(menu, e, evt{"node-appears-without-unregistered-taint", func() {
+				w.KubeletRegister(cur, world.RegisterOpts{NoUnregisteredTaint: true, NotReadyTaint: true, ZeroExt: true})
+			}})
 			def = &e
 		}
 		if node != nil {
@@ -371,26 +373,28 @@ func init() {
 			"every API WRITE and provider call (reads never fail, as the property quantifies) may fail (500 / 409 on optimistic lock / provider error / InsufficientCapacity / NodeClassNotReady). All histories with <=%d deviations from the happy path (non-default event, stale version, fault) are explored. "+
 			"Oracle at the instant of each provider Create and each NodeClaim write. non-trivial = distinct (scenario, history)", len(lcScenarios), rounds, bound)
 		r.Assumptions = []string{"at-most-once Create is only required while the controller keeps running (runs with a restart skip that clause)", "the launch cache's one-hour real-time TTL is never reached"}
-		enum.Run(r, int64(len(lcScenarios)), func(i int64, l *ev.Local) {
+		enum.RunEveryShard(r, int64(len(lcScenarios)), func(i int64, l *ev.Local) {
 			sc := lcScenarios[i]
-			ex := &explore.Explorer{Bound: bound, MaxExecs: 200000, Stop: r.Expired}
+			ex := &explore.Explorer{Bound: bound, MaxExecs: 200000, Stop: r.Expired, Shard: r.Shard, NShards: r.Shards}
 			ex.Exec = func(run *explore.Run) {
+				l.Mute = run.Replica
 				obs, history, final := c14Run(sc, run, rounds)
 				l.Eval()
-				l.Traces++
+				l.Trace()
 				l.Nontrivial(sc.name + "/" + strings.Join(history, ","))
 				l.Outcome(final + " transitions=" + strings.Join(obs.transitions, ">"))
 				if len(obs.regressed) > 0 {
 					l.Outcome("condition regressed under a stale read: " + strings.Join(obs.regressed, ","))
 				}
 				for _, v := range obs.viol {
-					l.Violation(v.Sig, fmt.Sprintf("%s  [scenario=%s history=%v]", v.Msg, sc.name, history), map[string]any{"scenario": sc.name, "choices": run.Choices(), "history": history, "calls": callStrings(obs.w)})
+					l.Violation(v.Sig, fmt.Sprintf("%s  [scenario=%s history=%v]", v.Msg, sc.name, history), map[string]any{"scenario": sc.name, "choices": run.Choices(), "faults": run.Plan(), "history": history, "calls": callStrings(obs.w)})
 				}
 				if len(run.Choices()) > 0 && run.Used == bound && len(history)%5 == 0 {
 					l.Sample(map[string]any{"scenario": sc.name, "history": history, "final": final})
 				}
 			}
 			ex.Explore()
+			noteDiverged(l, ex, "prefix")
 			l.Transitions += int64(ex.Points)
 			if ex.Capped {
 				l.Outcome("exploration-capped")
